@@ -102,7 +102,10 @@ Proof.
       destruct e1; [inversion H; subst; exact F|].
       eapply frozen_trans; [exact F|]. eapply IH; [|exact H]. eapply dead_frozen; eassumption.
     + destruct chunks as [|ch rest]; [inversion H; subst; apply frozen_refl|].
-      eapply frozen_trans; [|eapply IH; [|exact H]]; [split; reflexivity|exact D].
+      destruct (dropN _ ch) as [|r0 rem]; [destruct rest as [|r1 rest1]|].
+      * inversion H; subst. split; reflexivity.
+      * eapply frozen_trans; [|eapply IH; [|exact H]]; [split; reflexivity|exact D].
+      * eapply frozen_trans; [|eapply IH; [|exact H]]; [split; reflexivity|exact D].
 Qed.
 
 Lemma mw_close_dead c s e s' : dead s -> mw_close c s = (e, s') -> frozen s s'.
